@@ -380,6 +380,10 @@ func (w *World) publishLocked(inc *Inc, topic string, data []byte, from peer.ID)
 	}
 	sort.Ints(dsts)
 	for _, d := range dsts {
+		if !w.HoldOnCut && !w.linked(src, d) {
+			w.stat("lost-on-cut-link")
+			continue
+		}
 		w.pseq++
 		w.pending = append(w.pending, &Pend{kind: pkMsg, src: src, dst: d, topic: topic, tix: tix, seq: inc.pubseq, pseq: w.pseq, data: data, from: from, srcInc: inc})
 	}
